@@ -26,6 +26,7 @@ import (
 	"sort"
 	"strconv"
 	"strings"
+	"sync"
 	"time"
 
 	"github.com/ChainSafe/sygma-relayer/chains/evm/calls/events"
@@ -117,12 +118,18 @@ func c13Topo(s string) *topology.NetworkTopology {
 
 type c13Host struct {
 	host.Host
-	id peer.ID
-	ps peerstore.Peerstore
+	id   peer.ID
+	ps   peerstore.Peerstore
+	seam func() // called on every Peerstore() access (refresh2 parks one handler there); nil otherwise
 }
 
-func (h *c13Host) ID() peer.ID                                              { return h.id }
-func (h *c13Host) Peerstore() peerstore.Peerstore                           { return h.ps }
+func (h *c13Host) ID() peer.ID { return h.id }
+func (h *c13Host) Peerstore() peerstore.Peerstore {
+	if h.seam != nil {
+		h.seam()
+	}
+	return h.ps
+}
 func (h *c13Host) SetStreamHandler(pid protocol.ID, f network.StreamHandler) {}
 
 func c13NewHost(self int) *c13Host {
@@ -567,6 +574,84 @@ func init() {
 		}
 		return strings.Join(outs, "#")
 	}
+	// refresh2 <initial topology> <ev A> <ev B>     ev = <hashes>~<body hex|x>~<oracle>~1
+	//   => S=…|G=…|P=…
+	//   TWO real RefreshEventHandlers (as app.Run creates one per EVM chain) share the provider, the store, the gate and the
+	//   host. Handler A runs in its own goroutine until its first access to the host's peerstore — that is inside
+	//   p2p.LoadPeers, i.e. AFTER it has stored and gated its topology — and is parked there; handler B then runs completely;
+	//   then A is let go. The schedule is fixed by the seam in the fake host, not by timing. (If A does not get that far
+	//   because its announcement is not acceptable, it simply finishes first.)
+	ops["C13.refresh2"] = func(a []string) string {
+		dir, err := os.MkdirTemp("", "verif-c13-")
+		if err != nil {
+			panic(err)
+		}
+		defer os.RemoveAll(dir)
+		path := filepath.Join(dir, "topology.json")
+		store := topology.NewTopologyStore(path)
+		init := c13Topo(a[0])
+		if err := store.StoreTopology(init); err != nil {
+			panic(err)
+		}
+		gate := p2p.NewConnectionGate(init)
+		h := c13NewHost(0)
+		p2p.LoadPeers(h, init.Peers)
+		f := &c13Fetcher{}
+		inner, err := topology.NewNetworkTopologyProvider(relayer.TopologyConfiguration{EncryptionKey: c13Key, Url: "http://unused"}, f)
+		if err != nil {
+			panic(err)
+		}
+		mk := func(ev string) (*eventHandlers.RefreshEventHandler, []byte, bool) {
+			p := strings.Split(ev, "~")
+			l := &c13Listener{}
+			l.err = p[0] == "x"
+			if !l.err {
+				l.hashes = c13Hashes(p[0])
+			}
+			var body []byte
+			if p[1] != "x" {
+				body = unhx(p[1])
+			}
+			return eventHandlers.NewRefreshEventHandler(zerolog.Nop().With(), &c13Provider{inner: inner}, store, l, nil, h, c13Comm{}, gate, c13Storer{}, nil, ethCommon.Address{}), body, p[1] == "x"
+		}
+		ehA, bodyA, errA := mk(a[1])
+		ehB, bodyB, errB := mk(a[2])
+		atSeam, letGo, doneA := make(chan struct{}), make(chan struct{}), make(chan struct{})
+		parked := false
+		var mu sync.Mutex
+		h.seam = func() {
+			mu.Lock()
+			first := !parked
+			parked = true
+			mu.Unlock()
+			if first {
+				close(atSeam)
+				<-letGo
+			}
+		}
+		f.body, f.err = bodyA, errA
+		go func() {
+			defer close(doneA)
+			defer func() { _ = recover() }()
+			_ = ehA.HandleEvents(big.NewInt(1), big.NewInt(2))
+		}()
+		select {
+		case <-atSeam:
+		case <-doneA:
+			mu.Lock()
+			parked = true // A never reached the peerstore: nobody is to be parked any more
+			mu.Unlock()
+		}
+		f.body, f.err = bodyB, errB
+		func() {
+			defer func() { _ = recover() }()
+			_ = ehB.HandleEvents(big.NewInt(3), big.NewInt(4))
+		}()
+		close(letGo)
+		<-doneA
+		h.seam = nil
+		return c13Observe(path, store, gate, h)
+	}
 	// conn <A's topology> <B's topology> <broadcast|raw>  => delivered:<attributed sender> | refused        (TEST of the libp2p assumptions)
 	//   Two REAL libp2p hosts built by p2p.NewHost on loopback: A = peer 0 (gater over A's topology), B = peer 1 (gater over
 	//   B's topology). A sends one message to B — through the real Broadcast, or `raw` by writing a line that smuggles
@@ -935,6 +1020,23 @@ func genC13(g *G) {
 			g.Emit("refreshseq", []string{"0,1,2,3/2", "0,1,2/2", "2,1,0,0/2"}[g.Intn(3)], strings.Join(evs, "#"))
 		}
 	}
+	// 3g. two handlers on shared store / gate / host, A parked between gate and peerstore while B runs
+	{
+		pool := [][]int{{1, 2}, {2, 3}, {0, 1, 2, 3}}
+		evs := []string{}
+		for _, ps := range pool {
+			ct := c13Encrypt(g.Bytes(16), c13TopoJSON(g, ps, "1"))
+			b := hx([]byte(hex.EncodeToString(ct)))
+			evs = append(evs, c13Sha(ct)+"~"+b+"~"+c13Oracle(ct)+"~1")        // acceptable
+			evs = append(evs, c13Sha([]byte("z"))+"~"+b+"~"+c13Oracle(ct)+"~1") // wrong announcement
+		}
+		evs = append(evs, "-~x~n~1")
+		for _, ea := range evs {
+			for _, eb := range evs {
+				g.Emit("refresh2", "4,5/1", ea, eb)
+			}
+		}
+	}
 	// 3f. peer LISTS (order, repetitions) — every initial list × every announced list of 3 entries over {0,1,2}, same threshold
 	{
 		lists := []string{}
@@ -993,7 +1095,7 @@ func genC13(g *G) {
 			}
 		}
 	}
-	for i := 0; i < g.Count(900, 40000); i++ {
+	for i := 0; i < g.Count(900, 25000); i++ {
 		init := c13Ints(c13Subset(g)) + "/" + itoa(1+g.Intn(3))
 		thr := "2"
 		if g.Intn(3) == 0 {
